@@ -513,7 +513,7 @@ def two_loop_scale(hist, g0, q):
         rho = 1 / xdot(y, s)
         b = rho * sum(Fr(yi) * qi for yi, qi in zip(y, qq))
         qq = [qi - (b - a) * Fr(si) for qi, si in zip(qq, s)]
-        sc = max([sc] + [abs(v) for v in qq] + [abs((b - a) * Fr(si)) for si in s])
+        sc = max([sc] + [abs(v) for v in qq] + [abs(a * Fr(si)) for si in s] + [abs(b * Fr(si)) for si in s])
     return sc
 
 
